@@ -1,3 +1,6 @@
+import Proofs.CacheKey
 import Proofs.Hyperslab
+import Proofs.Proxy
 import Proofs.Slice
 import Proofs.SliceTuple
+import Proofs.Subset
